@@ -102,8 +102,24 @@ func c03Check(entry uintptr, fnEnd uintptr, tramp uintptr, s *vkit.Stats) (err e
 	if r := c03Refusal(func() { fixed, n, ferr = fixRelativeAddr(entry, orig, tramp, size, 13) }); r != nil {
 		ferr = fmt.Errorf("panic: %v", r)
 	}
-	// the write path (what Apply with an origin placeholder really does)
+	// the write path (what Apply with an origin placeholder really does); for one function in eight with trace logging on, as after
+	// mocker.OpenTrace() (what is written must not depend on the logging mode)
 	var werr error
+	traced := (entry>>5)%8 == 3
+	if traced {
+		if c03DevNull == nil {
+			c03DevNull, _ = os.OpenFile(os.DevNull, os.O_WRONLY, 0)
+		}
+		c03Stdout := os.Stdout
+		os.Stdout = c03DevNull
+		logger.OpenTrace()
+		defer func() {
+			logger.CloseTrace()
+			logger.LogLevel = 0
+			os.Stdout = c03Stdout
+		}()
+		s.Class("built-with-trace-logging-on")
+	}
 	if r := c03Refusal(func() { _, werr = fixOriginFuncToTrampoline(entry, tramp, 13) }); r != nil {
 		werr = fmt.Errorf("panic: %v", r)
 	}
@@ -181,6 +197,8 @@ func c03Check(entry uintptr, fnEnd uintptr, tramp uintptr, s *vkit.Stats) (err e
 	}
 	return nil
 }
+
+var c03DevNull *os.File
 
 var c03Positions = []struct {
 	name string
